@@ -349,7 +349,8 @@ def run(tier, seed):
         # classes that need a particular context (a partial stratification) are tried on every program
         classes = list(classes) + [c_ for c_ in ("output_for_unmatched_compartment", "output_for_unmatched_flow", "unequal_source_dest",
                                                  "unknown_flow_compartments_both", "rate_not_a_number",
-                                                 "age_on_partial", "second_age", "second_strain") if c_ not in classes]
+                                                 "age_on_partial", "second_age", "second_strain", "flow_end_matches_nothing",
+                                                 "unknown_filter_strata", "after_finalize", "flow_count_zero") if c_ not in classes]
         for cls in classes:
             res = inject(p, cls, g.rng)
             if res is None:
